@@ -750,6 +750,25 @@ def check_put_token(ctx, env, data, token, running=True):
             ctx.violation('NDNApp.v2.reply', 'reply-not-echoing-token' + (':empty' if token == b'' else ''),
                           f'expected {spec!r}, got {out!r}', case)
     ctx.case(('put', data, token, running), True, None, 'E.put_with_token')
+    # the stream-face variant kept "as a backup": header and data are sent separately; on the wire they are one envelope
+    if hasattr(app, '_put_raw_packet_with_pit_token_nocopy'):
+        del face.sent[:]
+        try:
+            app._put_raw_packet_with_pit_token_nocopy(data, token)
+            sends = list(face.sent)
+            out2 = [b''.join(sends)]
+        except Exception as e:   # noqa
+            sends = out2 = ('err', type(e).__name__)
+        m2 = ctx.call([14, 1 if running else 0, data, token])
+        if is_err(m2):
+            if not isinstance(out2, tuple) or (m2[1] == 101) != (out2[1] == 'NetworkError'):
+                ctx.disagree('_put_raw_packet_with_pit_token_nocopy', 'model raises, implementation differs', case, m2, out2)
+        elif isinstance(out2, tuple) or [bytes(x) for x in m2[1]] != sends:
+            ctx.disagree('_put_raw_packet_with_pit_token_nocopy', 'the two sends differ', case, m2, sends)
+        if running and (isinstance(out2, tuple) or not echoes(ctx, out2, token, data)):
+            ctx.violation('NDNApp.v2.reply_nocopy', 'reply-not-echoing-token' + (':empty' if token == b'' else ''),
+                          f'the bytes sent {out2!r} are not an envelope carrying token {token!r} and the data unmodified', case)
+        ctx.case(('put-nocopy', data, token, running), True, None, 'E.put_with_token_nocopy')
 
 
 # ---- driver --------------------------------------------------------------------------------------
